@@ -1,9 +1,67 @@
 """C11 - all observability surfaces tell the same story about an execution."""
+import json
 from . import common
 from harness import corpus
 PROP = "C11"
 MONITORS = ("M-views",)
 def scenarios(tier):
     return corpus.handler_coverage_corpus() + corpus.seq_family(tier) + corpus.fanout_ok_family(tier) + corpus.fanout_fail_family(tier) + corpus.bystander_family(tier) + corpus.observability_family(tier) + corpus.store_config_family(tier)
+
+def sync_api_cases(tier):
+    """The answer of StartSyncExecution is one more view of an (EXPRESS) execution: it must tell what the terminal notification tells,
+    with its dates in epoch seconds (the notification carries the same instants in milliseconds)."""
+    from harness.corpus import chain, Pass, Wait, Fail, Task
+    out = []
+    machines = {"echo": chain(("A", Pass()), ("Z", Pass())), "wait": chain(("W", Wait(2)), ("Z", Pass(Result={"done": True}, ResultPath="$.r"))),
+                "fail": chain(("A", Pass()), ("F", Fail("E.f", "because"))), "task": chain(("T", Task("f1")), ("Z", Pass()))}
+    for mname, d in machines.items():
+        for inp in ({"a": 1}, [], 0, "s", {}):
+            if mname in ("wait", "task") and not isinstance(inp, dict):
+                continue
+            out.append((mname, d, inp))
+    return out
+
+def _sync_case(args):
+    mname, d, inp = args
+    from harness.world import World, sm_arn
+    from harness.api import ApiClient
+    w = World({"name": "c11-sync", "machines": {"m": {"definition": d, "type": "EXPRESS"}}, "workers": {"f1": {"*": [["ok", {"r": 1}]]}}, "record_sites": False})
+    api = ApiClient(w)
+    task = api.start_async("StartSyncExecution", {"stateMachineArn": sm_arn("m"), "name": "s1", "input": json.dumps(inp)})
+    w.run(max_steps=500)
+    r = api.finish(task)
+    bad = []
+    term = [n for n in w.notes if n["body"]["detail"]["status"] != "RUNNING"]
+    if not r or r[0] != 200 or not isinstance(r[1], dict):
+        bad.append("no answer / not 200: %r" % (r and r[:2],))
+    elif len(term) != 1:
+        bad.append("%d terminal notifications" % len(term))
+    else:
+        a, n = r[1], term[0]["body"]["detail"]
+        for f in ("executionArn", "stateMachineArn", "name", "status", "input", "output", "error", "cause"):
+            if a.get(f) != n.get(f):
+                bad.append("%s: answer %r, notification %r" % (f, a.get(f), n.get(f)))
+        for f in ("startDate", "stopDate"):
+            av, nv = a.get(f), n.get(f)
+            if av is None or nv is None or isinstance(av, bool) or abs(av * 1000 - nv) >= 1.0:
+                bad.append("%s: answer %r (must be epoch seconds), notification %r ms" % (f, av, nv))
+    w.close()
+    return bad
+
 def run(tier, seed):
-    return common.engine_check(PROP, scenarios(tier), MONITORS, tier, seed)
+    cr = common.engine_check(PROP, scenarios(tier), MONITORS, tier, seed)
+    cases = sync_api_cases(tier)
+    for c in cases:
+        for b in _sync_case(c)[:1]:
+            sig = "sync-answer|%s|%s" % (c[0], b.split(":")[0])
+            cr.add(sig, "StartSyncExecution of machine %s with input %s: %s" % (c[0], json.dumps(c[2]), b), {"kind": "sync", "property": PROP, "signature": sig, "case": [c[0], c[1], c[2]]}, size=len(json.dumps(c[2])))
+    cr.coverage["sync_api_answers_compared"] = len(cases)
+    return cr
+
+def replay(rp):
+    if rp.get("kind") == "sync":
+        bad = _sync_case(tuple(rp["case"]))
+        print(("REPRODUCED property=C11 %r" % bad) if bad else "not reproduced")
+        return 1 if bad else 0
+    from . import replay as R
+    return R.engine_replay(rp)
